@@ -56,6 +56,18 @@ type FuncContract struct {
 	Allocates  []string
 	GhostSets  []GhostSet
 	CallAsserts map[string][]*Clause // "callee#k" -> assertions checked right before that call site
+	Defines    []*LocalDef
+}
+
+// LocalDef: a contract-local definition `define name(p T, ...) S = expr`: a fresh function symbol whose defining equation
+// (expr evaluated in the function's entry state / the call's pre-state) is assumed. A conservative definitional extension.
+type LocalDef struct {
+	Name   string
+	Params []EVar
+	Ret    string
+	Body   Expr
+	File   string
+	Line   int
 }
 
 // GhostSet: a ghost assignment performed when the function returns (definition of ghost state, not an assumption).
@@ -209,7 +221,7 @@ func readContractLines(path string, requirePrefix bool) ([]rawLine, string, erro
 var clauseKeywords = map[string]bool{"requires": true, "ensures": true, "invariant": true, "modifies": true, "pure": true,
 	"trusted": true, "may_panic": true, "loop": true, "func": true, "extern": true, "functype": true, "lemma": true,
 	"sort": true, "fn": true, "axiom": true, "ghost": true, "pkgframe": true, "guarded": true, "lockinv": true,
-	"acquires": true, "releases": true, "opaque": true, "reveal": true, "uses": true, "allocates": true, "noaxioms": true, "ghostset": true, "before_call": true, "macro": true, "crashinv": true, "note": true, "recfn": true, "props": true}
+	"acquires": true, "releases": true, "opaque": true, "reveal": true, "uses": true, "allocates": true, "noaxioms": true, "ghostset": true, "before_call": true, "macro": true, "define": true, "crashinv": true, "note": true, "recfn": true, "props": true}
 
 func firstWord(s string) (string, string) {
 	s = strings.TrimSpace(s)
@@ -366,6 +378,15 @@ func parseDirectives(lines []rawLine, pkgPath string, spec *SpecSet, contracts m
 			}
 		case "sort":
 			spec.Sorts[strings.TrimSpace(d.rest)] = true
+		case "define":
+			if cur == nil {
+				return fmt.Errorf("%s:%d: define outside func", d.file, d.line)
+			}
+			f, err := parseSpecFn(d.rest)
+			if err != nil || f.Body == nil {
+				return fmt.Errorf("%s:%d: define needs 'name(params) sort = expr'", d.file, d.line)
+			}
+			cur.Defines = append(cur.Defines, &LocalDef{Name: f.Name, Params: f.Params, Ret: f.Ret, Body: f.Body, File: d.file, Line: d.line})
 		case "macro":
 			// macro name(p1, p2) = expr
 			i := strings.Index(d.rest, "(")
